@@ -84,6 +84,25 @@ def through_json(d):
     return json.loads(json.dumps(d))
 
 
+def reordered(d):
+    """the same JSON value with its keys in another order (as written, sorted as json.dumps(sort_keys=True) writes them --
+    `edges` then comes before `nodes` --, or reversed; chosen by the text itself): a reader must not care"""
+    import zlib
+    text = json.dumps(d)
+    mode = zlib.crc32(text.encode()) % 3
+    if mode == 1:
+        return json.loads(json.dumps(d, sort_keys=True))
+    if mode == 2:
+        def rev(x):
+            if isinstance(x, dict):
+                return {k: rev(x[k]) for k in reversed(list(x))}
+            if isinstance(x, list):
+                return [rev(y) for y in x]
+            return x
+        return rev(json.loads(text))
+    return d
+
+
 def reply(f):
     """run a constructor; 'ok <graph token>' or 'err <Class>'; also returns the object"""
     try:
@@ -463,9 +482,10 @@ class Lane(LaneBase):
         if json.dumps(g.to_dict()) != json.dumps(through_json(g.to_dict())):
             oracle.append('json text of to_dict changes after one json round trip')
 
+        fed = {inc: reordered(d[inc]) for inc in (1, 0)}       # (one object per flag, handed to from_dict twice)
         for inc in (1, 0):
             for v in (0, 1):
-                r, h = reply(lambda: Cls.from_dict(d[inc], validate=bool(v)))
+                r, h = reply(lambda: Cls.from_dict(fed[inc], validate=bool(v)))
                 lines.append(f'dict from {cls} {v} {dict_text(d[inc])}')
                 out.append(r)
                 lines.append(f'dict rt {inc} {v} {tok}')
